@@ -30,8 +30,8 @@ SPEC = {
         "gstools.tools.geometric.set_anis/set_angles",
     ],
     "bounds": {
-        "quick": {"history_length": "<= 2 setter operations (all pairs) from an arbitrary valid constructed state", "configs": "plain d=1,2,3; temporal d=3; latlon; latlon+temporal; Stable (opt arg); TPLGaussian (var_factor)", "values": "symbolic (every real value, in and out of bounds)"},
-        "thorough": {"history_length": "<= 3 for the interacting setters (len_scale scalar/list, anis, dim, var, var_raw, integral_scale, opt arg), <= 2 for all", "configs": "as quick"},
+        "quick": {"history_length": "every single assignment in all 9 configurations; all ordered pairs in plain d=2, lat-lon+temporal and Stable; pairs of var_factor setters for TPLGaussian", "configs": "plain d=1,2,3; temporal d=3; latlon; latlon+temporal; Stable (opt arg); Exponential; TPLGaussian (var_factor)", "values": "symbolic (every real value, in and out of bounds)"},
+        "thorough": {"history_length": "all ordered pairs in all configurations; <= 3 for the interacting setters (len_scale scalar/list, anis, dim, var, var_raw, integral_scale, opt arg), <= 2 for all", "configs": "as quick"},
     },
     "stubs": ["hankel.SymmetricFourierTransform constructed concretely (dimension only)", "warnings ignored"],
     "oracle": "reference transition function of the documented setter semantics (docstring of CovModel: list of length scales redefines anis, "
@@ -659,20 +659,26 @@ INTERACTING = ["len_scale", "len_scale_list", "anis_list", "var", "var_raw", "in
 FACTOR_OPS = ["len_scale", "len_scale_list", "opt_len_low", "rescale", "var", "var_raw"]
 
 
+QUICK_PAIR_CONFIGS = ("plain2", "latlon_t", "stable2")
+
+
 def jobs(tier, seed):
     js = []
     for cfgname, cfg in CONFIGS.items():
         names = list(make_ops(cfg).keys())
         seqs = [(a,) for a in names]
-        if cfgname == "tplgau2" and tier == "quick":
-            # every feasibility query of this configuration is non-linear (square roots): the
-            # quick tier keeps the pairs among the setters that enter var_factor
-            seqs += list(itertools.product([n for n in names if n in FACTOR_OPS], repeat=2))
+        if tier == "quick":
+            # quick: every single assignment in every configuration; all ordered pairs in four
+            # representative configurations; pairs among the var_factor setters for the TPL model
+            if cfgname == "tplgau2":
+                seqs += list(itertools.product([n for n in names if n in ("len_scale", "opt_len_low", "var")], repeat=2))
+            elif cfgname in QUICK_PAIR_CONFIGS:
+                seqs += list(itertools.product(names, repeat=2))
         else:
             seqs += list(itertools.product(names, repeat=2))
-        if tier == "thorough" and cfgname != "tplgau2":
-            inter = [n for n in names if n in INTERACTING]
-            seqs += [s for s in itertools.product(inter, repeat=3) if len(set(s)) > 1]
+            if cfgname != "tplgau2":
+                inter = [n for n in names if n in INTERACTING]
+                seqs += [s for s in itertools.product(inter, repeat=3) if len(set(s)) > 1]
         for s in seqs:
             js.append(Job(f"{cfgname}:{'>'.join(s)}", job_history, cfgname, s, tier))
     return js
